@@ -829,8 +829,18 @@ struct inst
       std::string r{"out=" + narrow_ascii<Ch>(o1.str())};
       if (a->location().has_value())
       {
-        o2 << a->location().get_unsafe();
+        fcppt::parse::location const orig{a->location().get_unsafe()};
+        o2 << orig;
         r += " loc=" + narrow_ascii<Ch>(o2.str());
+        // the non-const accessors on a copy: ++line, column = 7; the original must not move
+        fcppt::parse::location copy{orig};
+        ++copy.line();
+        copy.column() = fcppt::parse::column{7U};
+        std::basic_ostringstream<Ch> o3, o4;
+        o3 << copy;
+        o4 << orig;
+        r += " mut=" + narrow_ascii<Ch>(o3.str()) + " orig=" + narrow_ascii<Ch>(o4.str());
+        r += (copy == orig) ? " same" : " differ";
       }
       return r;
     }
